@@ -478,6 +478,57 @@ func boundaryTimeUnit() harness.Unit {
 			}
 		}
 		c.Sample("4 chains (narrow period on the leaf / intermediate / root / all) x first and last instant x 10 offsets from -1 s to +1 s")
+		// validity bounds and verification times far from the present: periods that never end
+		// (9999), lie centuries ahead or behind; each position of the chain in turn carries the period,
+		// the other two are valid from 1000 to 9999
+		ever := func(d *desc) { d.nb, d.na = 1000, 9999 }
+		rootE, interE, leafE := mk(root.d.with(ever).with(func(d *desc) { d.id = "R1-ever" })), mk(inter.d.with(ever).with(func(d *desc) { d.id = "A-ever" })), mk(leaf.d.with(ever).with(func(d *desc) { d.id = "L-ever" }))
+		if rootE == nil || interE == nil || leafE == nil {
+			return
+		}
+		for _, per := range [][2]int{{2000, 9999}, {2300, 2700}, {1000, 1500}, {1600, 2300}, {1000, 9999}} {
+			per := per
+			far := func(d *desc) { d.nb, d.na = per[0], per[1] }
+			for pos, base := range []*cert{leaf, inter, root} {
+				x := mk(base.d.with(far).with(func(d *desc) { d.id = fmt.Sprintf("%s-%d-%d", base.d.id, per[0], per[1]) }))
+				if x == nil {
+					return
+				}
+				l, i, r := leafE, interE, rootE
+				switch pos {
+				case 0:
+					l = x
+				case 1:
+					i = x
+				default:
+					r = x
+				}
+				for _, y := range []int{1400, 1650, 1700, 2026, 2250, 2280, 2400, 2800, 9000} {
+					t := year(y).Add(12 * time.Hour)
+					want := true
+					for _, e := range []*cert{l, i, r} {
+						if t.Before(e.x.NotBefore) || t.After(e.x.NotAfter) {
+							want = false
+						}
+					}
+					opts := gx509.VerifyOptions{Roots: pool([]*cert{r}), Intermediates: pool([]*cert{i}), CurrentTime: t, KeyUsages: []gx509.ExtKeyUsage{gx509.ExtKeyUsageAny}}
+					var chainsOut [][]*gx509.Certificate
+					var verr error
+					tag := fmt.Sprintf("chain L <- A <- R1 where %s is valid %d..%d and the others 1000..9999; verification time in %d", []string{"the leaf", "the intermediate", "the root"}[pos], per[0], per[1], y)
+					c.Add("executions", 1)
+					c.Add("transitions", 1)
+					c.DistinctS("states", tag)
+					if c.Guard("verify-panic:far-validity", tag, nil, func() { chainsOut, verr = l.x.Verify(opts) }) {
+						continue
+					}
+					got := verr == nil && len(chainsOut) > 0
+					if got != want {
+						c.Violate(fmt.Sprintf("far-validity:%d-%d:position%d:%d", per[0], per[1], pos, y), fmt.Sprintf("[%s] Verify accepts=%v (err %v), the periods say %v", tag, got, verr, want), nil, nil)
+					}
+				}
+			}
+		}
+		c.Sample("periods {2000-9999, 2300-2700, 1000-1500, 1600-2300, 1000-9999} on leaf / intermediate / root x verification years {1400,1650,1700,2026,2250,2280,2400,2800,9000}")
 	}}
 }
 
@@ -532,7 +583,7 @@ func deepUnit(k, part, parts int, allOrders bool) harness.Unit {
 var Prop = &harness.Prop{
 	ID:          "C10",
 	Level:       "model_checking",
-	Rule:        "all small PKI topologies over a universe of ~65 real SM2 certificates described by ground-truth descriptors (valid/expired/not-yet-valid, CA true/false/no basic constraints, certSign yes/no/none, path length unset/0/1, forged signature, cross-signed, same-name-other-key, mutual loop A<->B, cross certificate of a root, permitted-domain constraints): every root subset of size <=2 x every intermediate subset up to the bound x 6 leaves, pools in forward, reverse (thorough: every) insertion order; leaves x 4 verification times x 14 host names x 5 usage requests over 5 pools; every constrained root x constrained intermediate x host name; leaf in the root pool; each Verify result is compared with a brute-force reference path validator over the descriptors (accept iff a path satisfying the statement exists) and every returned chain is checked link by link. states = distinct (roots, intermediates, leaf) topologies; transitions = Verify calls. Key identifiers are a dimension of the universe (subject key id derived/absent/unrelated, authority key id derived/absent/unrelated/that of another CA); the reference treats them as hints (RFC 5280). Extended key usages: leaves with server-gated-crypto, e-mail, unknown usages; CA certificates with an EKU extension next to twins without (ca-extended-key-usage unit); the model is evaluated in the statement's reading (leaf only) and in the chain-nested reading, verdicts are judged where both agree; server-gated crypto as serverAuth is not judged. Permitted-domain lists matching on the first of two and the middle of three entries; host names that only Unicode case folding would equate with a certified name.",
+	Rule:        "all small PKI topologies over a universe of ~65 real SM2 certificates described by ground-truth descriptors (valid/expired/not-yet-valid, CA true/false/no basic constraints, certSign yes/no/none, path length unset/0/1, forged signature, cross-signed, same-name-other-key, mutual loop A<->B, cross certificate of a root, permitted-domain constraints): every root subset of size <=2 x every intermediate subset up to the bound x 6 leaves, pools in forward, reverse (thorough: every) insertion order; leaves x 4 verification times x 14 host names x 5 usage requests over 5 pools; every constrained root x constrained intermediate x host name; leaf in the root pool; each Verify result is compared with a brute-force reference path validator over the descriptors (accept iff a path satisfying the statement exists) and every returned chain is checked link by link. states = distinct (roots, intermediates, leaf) topologies; transitions = Verify calls. Key identifiers are a dimension of the universe (subject key id derived/absent/unrelated, authority key id derived/absent/unrelated/that of another CA); the reference treats them as hints (RFC 5280). Extended key usages: leaves with server-gated-crypto, e-mail, unknown usages; CA certificates with an EKU extension next to twins without (ca-extended-key-usage unit); the model is evaluated in the statement's reading (leaf only) and in the chain-nested reading, verdicts are judged where both agree; server-gated crypto as serverAuth is not judged. Permitted-domain lists matching on the first of two and the middle of three entries; host names that only Unicode case folding would equate with a certified name. Far validity: periods ending in 9999 or lying centuries away, on each chain position, x verification years 1400..9000.",
 	Assumptions: []string{"the reference validator implements exactly the conditions the statement lists; where the statement is silent the alphabet avoids the question (EKUs only on leaves, constrained CAs only with a non-empty host name, key ids a function of the key, SANs always present, all certificates v3)"},
 	Bounds: func(tier string) string {
 		if tier == "thorough" {
